@@ -48,7 +48,16 @@ def validate(module: str, cfg: str, traces: list, *, shards: int = 16, max_per_s
     nsh = max(1, min(shards, (len(traces) + 49) // 50))
     while (len(traces) + nsh - 1) // nsh > max_per_shard:
         nsh += 1
-    parts = [traces[i::nsh] for i in range(nsh)]
+    # longest-processing-time first: heavy traces (by serialised size, validation cost grows faster than linearly) are
+    # dealt out first, each to the currently lightest shard
+    sized = sorted(((len(json.dumps(t)), k) for k, t in enumerate(traces)), reverse=True)
+    loads, parts = [0.0] * nsh, [[] for _ in range(nsh)]
+    for size, k in sized:
+        i = loads.index(min(loads))
+        parts[i].append(traces[k])
+        loads[i] += float(size) ** 1.5
+    parts = [p for p in parts if p]
+    nsh = len(parts)
     tmp = tempfile.mkdtemp(prefix="traces_")
     verdicts = {}
     outputs = []
